@@ -359,7 +359,7 @@ func (g *genCfg) multiCmd(r *rand.Rand) Cmd {
 	key := pick(r, g.keys)
 	switch r.Intn(9) {
 	case 0, 1:
-		return Cmd{Args: []string{"PDEL", key, []string{"*", "a*", "g?", "j*", "g1", "zz*", "b"}[r.Intn(7)]}}
+		return Cmd{Args: []string{"PDEL", key, []string{"*", "a*", "g?", "j*", "g1", "zz*", "b", "g*x*", "j[2]*", "p?z*", "j[0-9]*", "g*1*"}[r.Intn(12)]}}
 	case 2, 3:
 		return Cmd{Args: []string{"DROP", key}}
 	case 4, 5:
